@@ -9,3 +9,8 @@ claimed["C13"] = (
  "Every schedule with <=2 (quick) / <=3 (thorough) preemptions of {Close(scope), Close(ancestor), Close(provider), cancel()} || {Get scoped/transient/keyed, GetGroup, CreateScope child, provider.CreateScope, provider.Get} on the real provider, with a happens-before race detector on every execution, followed by retries on every closed object; plus every sequential history to depth 4/5 over create/resolve/close/cancel on <=3 scopes.",
  "bounds: 2 harness threads + watcher goroutines, preemption bound 2/3, histories to depth 4/5, <=3 scopes; equivalent schedules (same happens-before graph and harness log) are explored once",
  "DESIGN.md 6/C13")
+claimed["C09"] = (
+ "stateless schedule exploration of the real code (preemption-bounded DFS, happens-before state caching) with a vector-clock data-race detector on every execution",
+ "All 91 two-operation programs (quick: preemption bound 1, bound 2 for 12 core pairs; thorough: bound 2/3 and all 455 three-operation programs at bound 1) over a 13-operation alphabet on one shared provider; every execution is checked for data races on godi's struct fields (vector clocks over mutex/RWMutex/atomic/sync.Map/spawn/join/cancel edges), panics, deadlocks, undocumented errors and lifetime-rule breaches.",
+ "bounds as stated; races inside user values, reflect, context are out of scope of the detector; the free-running -race pass is not part of the verdict",
+ "DESIGN.md 6/C09")
